@@ -407,6 +407,52 @@ def run(ctx):
     mod_cases(ctx)
     multi_residue_cases(ctx)
     removal_cases(ctx)
+    pattern_replace_cases(ctx, ctx.n(12, 120))
+
+
+def pattern_replace_cases(ctx, n, extra=()):
+    """a link that carries replace statements (also an atom removal) and [ patterns ]: where no pattern line holds the link
+    does not apply, and the residues stay the copies of their blocks that MapToMolecule made"""
+    rng = ctx.rng
+    todo = list(extra)
+    for _ in range(n):
+        nres = rng.randint(3, 6)
+        todo.append({'resnames': [rng.choice(['RA', 'RB']) for _ in range(nres)], 'remove': rng.random() < 0.5,
+                     'pattern_on': rng.choice(['BB', '+BB']), 'perm': rng.random() < 0.4, 'seed': rng.randrange(10 ** 6)})
+    for case in todo:
+        t0, t1 = 'P1', 'Q1'
+        names = ['RA', 'RB']
+        link_atoms = ['BB {"replace": {"atype": "%s", "charge": 1.0}}' % t1] + (['SC {"replace": {"atomname": null}}'] if case['remove'] else [])
+        pat = 'BB {"resname": "RB"} +BB' if case['pattern_on'] == 'BB' else 'BB +BB {"resname": "RB"}'
+        text = '\n'.join(
+            sum([['[ moleculetype ]', f'{n} 1', '[ atoms ]', f'1 {t0} 1 {n} BB 1 0.0 72.0', f'2 C1 1 {n} SC 2 0.0 36.0', '[ bonds ]', 'BB SC 1 0.3 1000']
+                 for n in names], []) +
+            ['[ link ]', 'resname "RA|RB"', '[ atoms ]'] + link_atoms + ['[ bonds ]', 'BB +BB 1 0.350 1250.000', '[ patterns ]', pat]) + '\n'
+        nres = len(case['resnames'])
+        g = {'nres': nres, 'shape': 'path', 'resnames': list(case['resnames']), 'edges': [(i, i + 1) for i in range(nres - 1)],
+             'r0': 1, 'keys': list(range(nres)), 'order': list(range(nres)), 'edge_order': list(range(nres - 1)), 'flip': [False] * (nres - 1)}
+        if case['perm']:
+            import random as _r
+            g = ffgen.permute_graph(_r.Random(case['seed']), g)
+        out = ffgen.run_pipeline(text, g)
+        ctx.case(('pattern_replace', text, json.dumps(g, sort_keys=True)), nontrivial=True, sample={'resnames': case['resnames'], 'pattern': pat})
+        ctx.feature('link_with_replace_and_patterns')
+        rep = {'pattern_replace': case}
+        if 'error' in out:
+            ctx.violation('spec', f"the pipeline failed on a link with replace statements and [ patterns ]: {out['error']}", rep)
+            continue
+        applies = [i for i in range(1, nres) if case['resnames'][i - 1 if case['pattern_on'] == 'BB' else i] == 'RB']   # residue ids i with pair (i, i+1)
+        want = []
+        for r in range(1, nres + 1):
+            hit = r in applies
+            want.append((r, case['resnames'][r - 1], 'BB', t1 if hit else t0, 1.0 if hit else 0.0))
+            if not (hit and case['remove']):
+                want.append((r, case['resnames'][r - 1], 'SC', 'C1', 0.0))
+        got = [(a['resid'], a['resname'], a['name'], a['atype'], a['charge']) for a in out['links']['atoms']]
+        if sorted(got) != sorted(want):
+            d = sorted(set(got) ^ set(want))[:3]
+            ctx.violation('spec', f"C01 fails on the implementation: link with replace statements and pattern '{pat}' on residues {case['resnames']}: "
+                          f"it applies to the pairs starting at residues {applies}; atoms differ from the blocks / the replace statements at {d}", rep)
 
 
 def removal_cases(ctx):
@@ -610,6 +656,11 @@ def replay_removal(ctx, data):
 def replay(ctx, data):
     if 'removal_ff' in data:
         return replay_removal(ctx, data)
+    if 'pattern_replace' in data:
+        before = len(ctx.violations)
+        pattern_replace_cases(ctx, 0, extra=[data['pattern_replace']])
+        print('replay:', ctx.violations[-1]['what'][:400] if len(ctx.violations) > before else 'statement satisfied on this input')
+        return 1 if len(ctx.violations) > before else 0
     print(json.dumps(data, indent=1, default=str)[:3000])
     if data.get('mod_case'):
         g = data['graph']
